@@ -151,7 +151,7 @@ pub fn run(ctx: &Ctx) -> i32 {
     // at the end; each is parsed three times in a row and used twice in one command line
     let mut longs: Vec<String> = vec![];
     let units = ["%p", "%s", "\\n", "\\101", "\\\\", "ab", "%%", "%A@", "%{fid}", "\\0", "\\q", "x"];
-    for &n in &[8usize, 16, 24, 25, 47, 48, 49, 63, 64, 65, 127, 128, 129, 255, 256, 257, 500] {
+    for n in (2usize..=130).chain([255, 256, 257, 500]) {
         for u in units {
             for tail in ["", ".", "%p", "\\n", " end"] {
                 let s = format!("{}{tail}", u.repeat(n));
